@@ -5,7 +5,7 @@ import schedcheck
 import drivercases as dc
 from asyncchecks import *
 
-THEOREMS = ["driver_send_fifo", "future_value_means_all_accepted", "partial_write_keeps_front", "resolves_only_front", "arm_only_that_descriptor", "sends_use_nosignal"]
+THEOREMS = ["driver_send_fifo", "future_value_means_all_accepted", "partial_write_keeps_front", "resolves_only_front", "arm_only_that_descriptor", "sends_use_nosignal", "driver_send_refines_queue_machine"]
 
 
 def generate(rnd, tier):
